@@ -624,7 +624,7 @@ def sub_gate(ctx):
             c["leaves"] = [dict(sp, phys=False) for sp in c["leaves"]]
     cases = c3[:: (4 if ctx.quick else 1)]
     cases += exhaustive_tree_cases(ctx, "gate", [2, 3], [5, 2], [0, 0])
-    cases += gen_tree_cases(ctx, "gate", [2, 2, 3] if not ctx.quick else [2], ctx.n(6, 60))
+    cases += gen_tree_cases(ctx, "gate", [2, 2, 3] if not ctx.quick else [2], ctx.n(6, 40))
     ctx.sample("gate", cases[3])
     ctx.run_cases("gate", chk_tree, cases)
 
